@@ -129,7 +129,9 @@ def planar_extraction_is_right_inverse(env, cfg, ck):
                           'spatialmath.pose3d.SO3.Eul', 'spatialmath.pose3d.SO3.AngVec', 'spatialmath.quaternion.UnitQuaternion.rpy',
                           'spatialmath.quaternion.UnitQuaternion.eul', 'spatialmath.quaternion.UnitQuaternion.angvec'],
           configs=[{'cls': c, 'mode': 'concrete'} for c in ('SO3', 'SE3', 'UnitQuaternion')] + [{'cls': 'UnitQuaternion', 'mode': 'concrete', 'scalar': 'negative'}]
-          + [{'cls': c, 'mode': 'symbolic', 'tier': 'thorough'} for c in ('SO3', 'SE3', 'UnitQuaternion')])
+          # symbolic: one accessor per configuration, so that the paths of the extractions add up instead of multiplying
+          + [{'cls': c, 'mode': 'symbolic', 'acc': acc, 'tier': 'thorough'} for c in ('SO3', 'SE3')
+             for acc in ('rpy:zyx', 'rpy:xyz', 'rpy:yxz', 'eul', 'angvec', 'ctors')])
 def class_accessors_agree_with_base(env, cfg, ck):
     """the class accessors return what the base extraction returns for the object's rotation (so their right-inverse
     property is the base functions' one), and the class constructors rebuild through the base constructors"""
@@ -145,16 +147,20 @@ def class_accessors_agree_with_base(env, cfg, ck):
     else:
         R = documented_rpy(env, 'zyx', *a)
         X = getattr(sm, cls)(R if cls == 'SO3' else A.homog(np, R, env.reals('t', 3)), check=False)
+    acc = cfg.get('acc', 'all')
     for o in ('zyx', 'xyz', 'yxz'):
-        ck.eq('rpy:' + o, ck.call(X.rpy, order=o), ck.call(b.tr2rpy, R, order=o), tol=1e-9)
-    ck.eq('eul', ck.call(X.eul), ck.call(b.tr2eul, R), tol=1e-9)
-    th1, v1 = ck.call(X.angvec)
-    th2, v2 = ck.call(b.tr2angvec, R)
-    ck.eq('angvec:theta', th1, th2, tol=1e-9)
-    ck.true('angvec:theta-in-[0,pi]', (th1 >= 0) and (th1 <= env.pi))
-    ck.eq('angvec:axis', v1, v2, tol=1e-9)
+        if acc in ('all', 'rpy:' + o):
+            ck.eq('rpy:' + o, ck.call(X.rpy, order=o), ck.call(b.tr2rpy, R, order=o), tol=1e-9)
+    if acc in ('all', 'eul'):
+        ck.eq('eul', ck.call(X.eul), ck.call(b.tr2eul, R), tol=1e-9)
+    if acc in ('all', 'angvec'):
+        th1, v1 = ck.call(X.angvec)
+        th2, v2 = ck.call(b.tr2angvec, R)
+        ck.eq('angvec:theta', th1, th2, tol=1e-9)
+        ck.true('angvec:theta-in-[0,pi]', (th1 >= 0) and (th1 <= env.pi))
+        ck.eq('angvec:axis', v1, v2, tol=1e-9)
     C = getattr(sm, cls)
-    if cls != 'UnitQuaternion':
+    if cls != 'UnitQuaternion' and acc in ('all', 'ctors'):
         for o in RPY_ORDERS:
             ck.eq('RPY:' + o, ck.call(C.RPY, a, order=o).A[:3, :3], documented_rpy(env, o, *a), tol=1e-9)
         ck.eq('Eul', ck.call(C.Eul, a).A[:3, :3], documented_eul(env, *a), tol=1e-9)
